@@ -330,6 +330,11 @@ def judge(spec, res, k=None):
                 viol('T2-exception-is-not-timeout', 'at %s: sandbox.exception is %s' % (b['label'], sx and sx['cls']),
                      '/is=%s' % (sx and sx['cls']))
                 break
+        # (C05's timeout clause) when the timed-out call returns, nothing is borrowed any more and both stacks are empty
+        if i == k and (tuple(b['stacks']) != (0, 0) or b['global_problems']):
+            viol('T4-state-not-restored-when-the-timed-out-call-returns', 'patch stack %d, stdout stack %d, %s' % (
+                b['stacks'][0], b['stacks'][1], b['global_problems'][:3]))
+            break
         # T4a: the next execution starts from a clean patch state
         if i + 1 < len(obs) and obs[i + 1]['op'] in sbx.EXEC_OPS:
             if b.get('temporaries'):
